@@ -72,7 +72,7 @@ pub struct Length {}
 #[unit(Second, "s", 1.1574074074074073e-5, "SI reference unit")]
 #[unit(Minute, "min", 0.0006944444444444445, "60·s")]
 #[unit(Hour, "h", 0.041666666666666664, "60·min")]
-#[unit(Sideral_Day, "dₛ", 0.9972685185185185, "a·d/(a + d)")]
+#[unit(Sideral_Day, "dₛ", 0.9972696245733789, "a·d/(a + d)")]
 #[unit(Julian_Year, "a", 365.25, "365.25·d")]
 #[unit(Gregorian_Year, "yr", 365.2425, "365.2425·d")]
 #[unit(
@@ -92,7 +92,7 @@ pub struct Length {}
 /// | s      | Second              | SI reference unit | 1.1574074074074073e-5 |
 /// | min    | Minute              | 60·s              | 0.0006944444444444445 |
 /// | h      | Hour                | 60·min            | 0.041666666666666664  |
-/// | dₛ     | Siderial Day        | a·d/(a + d)       | 0.9972685185185185    |
+/// | dₛ     | Siderial Day        | a·d/(a + d)       | 0.9972696245733789    |
 /// | a      | Julian Year         | 365.25·d          | 365.25                |
 /// | yr     | Gregorian Year      | 365.2425·d        | 365.2425              |
 /// | T🜨     | Earth's Orbital Period | ≈ 365.256363004·d | 365.256363004      |
